@@ -1114,12 +1114,12 @@ def run(ctx, only_ops=None):
         hists = [("replay", only_ops)]
     else:
         scale = float(os.environ.get("C04_SCALE", "1"))     # development aid only
-        n_tab = int((1500 if quick else 30000) * scale)
-        n_seq = int((500 if quick else 8000) * scale)
+        n_tab = int((4000 if quick else 30000) * scale)
+        n_seq = int((1200 if quick else 8000) * scale)
         for i in range(n_tab):
             w = ctx.rng.choice([3, 6, 6, 12, 12, 24, 40, 40, 80, 160])
             hists.append(("table", g.table_history(ctx.rng.range(20, 260), w)))
-        for i in range(3 if quick else 40):
+        for i in range(6 if quick else 40):
             hists.append(("growth", g.growth_history(ctx.rng.choice([130, 270, 530, 600]))))
         for i in range(n_seq):
             hists.append(("array", g.array_history(ctx.rng.range(10, 120))))
@@ -1131,11 +1131,17 @@ def run(ctx, only_ops=None):
     for j, i in enumerate(order):
         chunks[j % nchunks].append(i)
 
-    def work(idxs):
+    def work(idxs, full=None):
+        if full is None:
+            # table histories: state digests are enough (the oracle checks results and counts); sequence histories,
+            # corpus and replays: full contents, so that the oracle can compare every element.  (Memory: a full dump
+            # of 12 registers per op is several KB.)
+            dig = [i for i in idxs if hists[i][0] in ("table", "growth", "deep-proto")]
+            ful = [i for i in idxs if hists[i][0] not in ("table", "growth", "deep-proto")]
+            return (work(dig, False) if dig else []) + (work(ful, True) if ful else [])
         hs = [hists[i][1] for i in idxs]
-        full = False
-        k, res, crashed = run_impl(hx, hs, full=True, per_home=per_home)
-        mod = run_model(exe, k, hs, full=True) if exe else None
+        k, res, crashed = run_impl(hx, hs, full=full, per_home=per_home)
+        mod = run_model(exe, k, hs, full=full) if exe else None
         out = []
         for j, i in enumerate(idxs):
             lines = res[j] if j < len(res) else []
@@ -1146,7 +1152,7 @@ def run(ctx, only_ops=None):
                     # everything after a crash in this chunk is lost: rerun the remaining histories separately
                     rest = idxs[j + 1:]
                     if rest:
-                        out += work(rest)
+                        out += work(rest, full)
                     break
                 continue
             orc = oracle_history(ops, lines)
